@@ -20,7 +20,7 @@ import (
 	"github.com/prometheus/alertmanager/pkg/labels"
 )
 
-var c16Alphabet = []string{"a", "_", "1", "é", "🙂", " ", "\"", "\\", "n", "{", "}", ",", "=", "!", "~", "'", "`", " ", "　", "\n", "\t", "\uFFFD"}
+var c16Alphabet = []string{"a", "_", "1", "é", "🙂", " ", "\"", "\\", "n", "{", "}", ",", "=", "!", "~", "'", "`", " ", "　", "\n", "\t", "\uFFFD", "\u200B"}
 
 func c16Strings(maxLen int, f func(string)) {
 	var rec func(prefix string, n int)
